@@ -12,6 +12,18 @@ ASSUMPTIONS = []
 
 def generate(rng, tier):
     cases = []
+    # incremental parsing against the model (op 135): two documents sharing key pools, the second parsed into the first's library
+    for _ in range(500 if tier == "quick" else 10000):
+        ek = rng.sample(["k1", "k2", "K1", "a", "b"], rng.randint(1, 3))
+        sk = rng.sample(["k1", "s", "a"], rng.randint(1, 2))
+        fn = rng.sample(["t", "T", "a", "author", "year"], rng.randint(1, 3))
+        t1 = G.gen_doc(rng, max_items=rng.choice([1, 3, 5]), depth=1, entry_keys=ek, string_keys=sk, field_names=fn)[0]
+        t2 = G.gen_doc(rng, max_items=rng.choice([1, 3, 5]), depth=1, entry_keys=ek, string_keys=sk, field_names=fn)[0]
+        if rng.random() < 0.2:
+            t1 = G.mutate(rng, t1)
+        if rng.random() < 0.2:
+            t2 = G.mutate(rng, t2)
+        cases.append({"stream": "incremental", "input": {"t1": t1, "t2": t2}})
     for _ in range(2500 if tier == "quick" else 25000):
         ek = rng.sample(["k1", "k2", "K1", "a", "b"], rng.randint(1, 3))
         sk = rng.sample(["k1", "s", "a"], rng.randint(1, 2))
@@ -21,7 +33,56 @@ def generate(rng, tier):
     return cases
 
 
+def impl_incremental(case):
+    import enc
+    import implutil
+    from bibtexparser.splitter import Splitter
+    t1, t2 = case["input"]["t1"], case["input"]["t2"]
+
+    def go():
+        la = Splitter(t1).split()
+        n = len(la.blocks)
+        lb = Splitter(t2).split(library=la)
+        return la, n, lb
+    r = implutil.guarded(go)
+    rec = {"sx_in": [135, enc.enc_str(t1), enc.enc_str(t2)], "key": str(hash((t1, t2))), "nontrivial": True, "tags": ["incremental"]}
+    if not (SC.lower_ok(t1) and SC.lower_ok(t2)):
+        rec["skip"] = True
+    if r[0] == "exc":
+        rec["sx_out"] = implutil.r_exc(6)
+        rec["oracle"] = {"ok": False, "detail": "incremental split raised " + r[2]}
+        return rec
+    la, n, lb = r[1]
+    rec["sx_out"] = implutil.r_ok([enc.enc_block(b) for b in lb.blocks])
+    ok, detail = True, ""
+    if lb is not la:
+        ok, detail = False, "split(library=L) returned another library"
+    else:
+        # first wins over the WHOLE library: every duplicate-key block points at the first live block of its class and key
+        live = {}
+        for i, b in enumerate(lb.blocks):
+            cn = type(b).__name__
+            if cn in ("Entry", "String"):
+                if (cn, b.key) in live:
+                    ok, detail = False, "two live %s blocks with key %r" % (cn, b.key)
+                    break
+                live[(cn, b.key)] = b
+            elif cn == "DuplicateBlockKeyBlock":
+                k = (type(b.ignore_error_block).__name__, b.key)
+                if k not in live or b.previous_block is not live[k]:
+                    ok, detail = False, ("block %d: duplicate of %s %r does not point at the first live block of the library" % (i, k[0], k[1]))
+                    break
+        if ok and ({k: id(v) for k, v in lb.entries_dict.items()} != {k[1]: id(v) for k, v in live.items() if k[0] == "Entry"} or
+                   {k: id(v) for k, v in lb.strings_dict.items()} != {k[1]: id(v) for k, v in live.items() if k[0] == "String"}):
+            ok, detail = False, "entries_dict / strings_dict do not map each key to its first block"
+    rec["oracle"] = {"ok": ok, "detail": detail}
+    rec["summary"] = " ".join(SC.block_kinds(lb))[:200]
+    return rec
+
+
 def impl(case):
+    if "t1" in case["input"]:
+        return impl_incremental(case)
     text, items = case["input"]["text"], case["input"]["items"]
     rec, r = SC.base_record(text)
     if r[0] == "exc":
@@ -114,6 +175,36 @@ def impl(case):
                         ok, detail = False, ("after the %s parse stack, duplicate block %d (%s %r) has previous_block %s %r%s" %
                                              (name, i, it["kind"], it["key"], type(prev).__name__, getattr(prev, "key", None),
                                               "" if not ident or prev is first else " (not the first block held by the library)"))
+                        break
+            # incremental parsing: the document cut between two source blocks, the second part parsed INTO the library of the
+            # first (library=...): same classification, and every duplicate points at the first live block of the whole library
+            if ok and len(items) >= 2:
+                pos, offs = 0, []
+                for it in items:
+                    pos = text.index(it["raw"], pos)
+                    offs.append(pos)
+                    pos += len(it["raw"])
+                cut = offs[1 + (len(text) + len(items)) % (len(items) - 1)]
+                for name, stack in (("an empty", []), ("the default", None)):
+                    kw = {} if stack is None else {"parse_stack": stack}
+                    la = bibtexparser.parse_string(text[:cut], **kw)
+                    n_a = len(la.blocks)
+                    lb = bibtexparser.parse_string(text[cut:], library=la, **kw)
+                    if (stack is not None and lb is not la) or SC.block_kinds(lb) != SC.block_kinds(lib):
+                        ok, detail = False, ("parsing the document in two parts (second part with library=first, %s parse stack) "
+                                             "classifies the blocks as %r, in one go as %r" % (name, SC.block_kinds(lb), SC.block_kinds(lib)))
+                        break
+                    for i, (b, it) in enumerate(zip(lb.blocks, items)):
+                        if type(b).__name__ != "DuplicateBlockKeyBlock":
+                            continue
+                        first = lb.blocks[(live_e if it["kind"] == "entry" else live_s)[it["key"]]]
+                        if b.previous_block is not first:
+                            ok, detail = False, ("two-part parsing (library=, %s parse stack, cut before block %d of %d): duplicate block "
+                                                 "%d (%s %r) does not point at the first live block of the library but at %s %r" %
+                                                 (name, sum(1 for o in offs if o < cut), len(items), i, it["kind"], it["key"],
+                                                  type(b.previous_block).__name__, getattr(b.previous_block, "key", None)))
+                            break
+                    if not ok:
                         break
             for L in (lib2, lib3):
                 if ok and ({k: type(v).__name__ for k, v in L.entries_dict.items()} != {k: "Entry" for k in live_e} or
